@@ -31,7 +31,8 @@ const VALUES: &[&str] = &[
 ];
 const SCALARS: &[&str] = &["V1", "V2", "code", "i", "line"];
 const FUNCS: &[&str] = &["f1", "f2", "code"];
-const ALIASES: &[&str] = &["a1", "f2", "ll"];
+// the last three are commands the runner template itself uses when it persists the state
+const ALIASES: &[&str] = &["a1", "f2", "ll", "grep", "sed", "tail"];
 const SET_OPTS: &[&str] = &["noclobber", "nounset", "noglob", "pipefail", "allexport", "physical", "errexit"];
 const SHOPTS: &[&str] = &["nullglob", "dotglob", "extglob", "nocasematch", "globstar"];
 const DIRS: &[&str] = &["d1", "d1/d2", "with space", "ünï"];
@@ -117,7 +118,7 @@ impl Snip {
             Snip::AliasDef { name, body } => format!(
                 "alias {}={}",
                 pick(ALIASES, *name),
-                sq(pick(&["echo aliased", "ls -la", "echo 'with quote'", "printf \"%s\\n\" x"], *body))
+                sq(pick(&["echo aliased", "ls -la", "echo 'with quote'", "printf \"%s\\n\" x", "grep -n", "echo"], *body))
             ),
             Snip::Unalias { name } => format!("unalias {} 2>/dev/null", pick(ALIASES, *name)),
             Snip::SetOpt { opt, on } => format!("set {}o {}", if *on { "-" } else { "+" }, pick(SET_OPTS, *opt)),
